@@ -86,8 +86,24 @@ def mutate(R, data, pool):
     return s.encode()
 
 
+def bigpipe_case(R, idx):
+    """more text than a pipe holds (64 KiB), sent to a command that exits without reading it all"""
+    nl = R.choice([3000, 8000, 20000])
+    text = b''.join(b'%06d %s\n' % (i, b'xyz' * R.randint(0, 12)) for i in range(nl))
+    mode = R.choice(['v', 'se', 'se'])
+    cmd = R.choice(['true', 'false', 'head -n 1', 'head -n 2', 'echo hi'])
+    if mode == 'v':
+        data = R.choice(['1G!G%s\n', ':%%!%s\n', ':w !%s\n', ':1,$w !%s\n', 'G:1,.!%s\n']) % cmd
+    else:
+        data = R.choice(['%%!%s\n', 'w !%s\n', '1,$w !%s\n', '1,$!%s\n']) % cmd
+    data += R.choice(['', '1\n', 'u\n'])
+    return {'idx': idx, 'mode': mode, 'rows': 24, 'cols': 80, 'files': {'f1': text}, 'args': ['f1'], 'data': data.encode()}
+
+
 def make_case(idx, tests):
     R = rng('c05', idx)
+    if R.random() < 0.01:
+        return bigpipe_case(R, idx)
     kind = R.choice(['mixed', 'mixed', 'ascii', 'ltr'])
     lines = gen.rand_buffer(R, kind, 10)
     if R.random() < 0.15:
@@ -219,7 +235,7 @@ def run(tier, V):
             V.violation(key, 'mode %s window %dx%d stream %s :: %s' % (case['mode'], case['rows'], case['cols'], common.show(case['data'], 160), summarize(r.err)), wit)
     cov = {'slow_streams_finished_only_by_the_plain_build': slow, 'msan_streams': nm, 'evaluations': n + nm, 'distinct_nontrivial': n + nm, 'streams_by_mode': modes, 'window_sizes_seen': sorted(wins), 'stream_bytes': nbytes,
            'test_scripts_used_as_seeds': len(tests), 'odd_seeds': len(VI_ODD) + len(EX_MISC),
-           'rule': ('%d streams: vi grammar programs, ex grammar programs, hand-written odd-but-legal seeds, mutations (truncate/splice/duplicate/swap/insert valid UTF-8) of those and of the %d test scripts; '
+           'rule': ('%d streams: vi grammar programs, ex grammar programs, hand-written odd-but-legal seeds, 1% filters/pipe writes of 100-500 KB buffers through commands that exit early, mutations (truncate/splice/duplicate/swap/insert valid UTF-8) of those and of the %d test scripts; '
                     'x random buffers (ASCII, multi-byte, wide, combining, RTL, long lines, empty, no final newline) x window sizes 2x2..60x200 x -v / -s -e / -e, run as uid nobody under ASan+UBSan (and a further slice under MemorySanitizer) with a whitelist shell. '
                     'every stream is distinct (seeded index) and non-trivial (at least one command).' % (n, len(tests))),
            'samples': samples[:6] or [{'note': 'no sample'}]}
